@@ -33,6 +33,7 @@ func crashConfigs(kind string) []aofCfg {
 			{Txn: true, Resume: true, Pipeline: false, Count: 2, Bytes: 1 << 20, DbMode: "id"},
 			{Txn: true, Resume: true, Pipeline: true, Count: 1, Bytes: 1 << 20, DbMode: "id"},
 			{Txn: true, Resume: true, Pipeline: false, Count: 64, Bytes: 1 << 20, DbMode: "map12"},
+			{Txn: true, Resume: true, Pipeline: false, Count: 64, Bytes: 8, DbMode: "id"},
 		}
 	case "txn-all":
 		var out []aofCfg
@@ -42,6 +43,7 @@ func crashConfigs(kind string) []aofCfg {
 					out = append(out, aofCfg{Txn: true, Resume: true, Pipeline: pipe, Count: cnt, Bytes: 1 << 20, DbMode: db})
 				}
 			}
+			out = append(out, aofCfg{Txn: true, Resume: true, Pipeline: pipe, Count: 64, Bytes: 8, DbMode: "id"}, aofCfg{Txn: true, Resume: true, Pipeline: pipe, Count: 2, Bytes: 40, DbMode: "id"})
 		}
 		return out
 	case "all":
@@ -62,6 +64,7 @@ func crashConfigs(kind string) []aofCfg {
 		{Txn: true, Resume: true, Pipeline: true, Count: 1, Bytes: 1 << 20, DbMode: "map12"},
 		{Txn: false, Resume: true, Pipeline: false, Count: 2, Bytes: 1 << 20, DbMode: "map12"},
 		{Txn: false, Resume: true, Pipeline: true, Count: 64, Bytes: 1 << 20, DbMode: "id"},
+		{Txn: true, Resume: true, Pipeline: false, Count: 64, Bytes: 8, DbMode: "id"},
 	}
 }
 
